@@ -183,6 +183,15 @@ def check(ctx):
                 ds = deps(c.func.value, n, defs)
                 if any("_get_node" in d or "_handle" in d for d in ds):
                     return True
+            # variables["time"][0] = t where `variables` is a local name for self._handle.variables
+            if isinstance(c, (ast.Assign, ast.AugAssign)):
+                for t in (c.targets if isinstance(c, ast.Assign) else [c.target]):
+                    if isinstance(t, ast.Subscript):
+                        root = t.value
+                        while isinstance(root, (ast.Subscript, ast.Attribute)):
+                            root = root.value
+                        if isinstance(root, ast.Name) and root.id != "self" and any("self._handle" in d or "_get_node" in d for d in deps(root, n, defs)):
+                            return True
             return False
         for n in cfg.nodes():
             for e in cfg.own_exprs(n):
